@@ -243,7 +243,12 @@ static int choose() {
         return pick;
     }
 }
-static void point(int kind, const void* obj) {
+__attribute__((noinline)) static void set_errno(int e) { asm volatile("" ::: "memory"); errno = e; }
+static void point1(int kind, const void* obj);
+// the library assumes that spinlock operations leave errno alone (e.g. semaphore::wait_interruptible re-locks `splock` between the
+// wake-up and the test of errno): the hook must be transparent
+static void point(int kind, const void* obj) { int e = get_errno(); point1(kind, obj); set_errno(e); }
+static void point1(int kind, const void* obj) {
     if (!g_active) return;
     int me = os_idx();
     if (me < 0) return;
@@ -269,7 +274,9 @@ static void point(int kind, const void* obj) {
 static std::map<const void*, std::string> g_qname;
 static std::map<const void*, int> g_lock2tid;
 static __thread const void* t_sleeper = nullptr;
-static void ls_cb(int id, const void* obj, const void* l1, const void* l2) {
+static void ls_cb1(int id, const void* obj, const void* l1, const void* l2);
+static void ls_cb(int id, const void* obj, const void* l1, const void* l2) { int e = get_errno(); ls_cb1(id, obj, l1, l2); set_errno(e); }
+static void ls_cb1(int id, const void* obj, const void* l1, const void* l2) {
     point(id, obj);
     if (!g_active) return;
     if (id == photon::LS_TH_SLEEP) t_sleeper = obj;
